@@ -184,7 +184,7 @@ Proof.
       destruct (o_tmo c) as [d|]; [|repeat strip]. match goal with |- context [if ?b then _ else _] => destruct b end; [|repeat strip].
       destruct (is_running s); repeat strip.
   - (* StreamFinish *) destruct (getop s o) as [c|] eqn:Ec; [|apply sext_refl].
-    destruct (o_status c); try apply sext_refl; destruct (is_running s); repeat strip.
+    destruct (o_status c); try apply sext_refl; try destruct (fix20 (fx s)); destruct (is_running s); repeat strip.
   - (* Advance *) repeat strip.
 Qed.
 
@@ -252,7 +252,7 @@ Proof.
         | destruct (o_chan c); cbn [negb]; [|now left]; destruct (o_tmo c) as [d|]; [|now left];
           match goal with |- context [if ?b then _ else _] => destruct b end; [destruct (is_running s)|]; now left ].
   (* StreamFinish *)
-  1, 2: destruct (getop s o) as [c|]; [|now left]; destruct (o_status c); try (now left); destruct (is_running s); now left.
+  1, 2: destruct (getop s o) as [c|]; [|now left]; destruct (o_status c); try (now left); try destruct (fix20 (fx s)); destruct (is_running s); now left.
   (* Advance *)
   1, 2: now left.
 Qed.
